@@ -37,6 +37,20 @@ CHECKS = {
               "through it (validated natively on 435 values at every run). Two genuine defects found by this check were repaired in /repo "
               "(fix: commits bc191a3, 7728b54; see known_findings.json)."),
         design="DESIGN.md section 3, C03; Changes after round 0"),
+    "C04": dict(
+        category="model_checking",
+        text=("Bounded symbolic model checking of the real simulator: bondmachine.VM.Step (with its worker goroutines and channels), "
+              "procbuilder.VM.Step, R2owa/I2rw.Simulate and the deferred-instruction machinery are executed symbolically for T ticks on a "
+              "machine with one producer bonded to k consumers whose PROGRAMS (every ROM word) and initial registers are solver variables, so "
+              "one run covers every instruction mix, padding and relative speed of that size. A ghost monitor asserts at every tick, for "
+              "every consumer: the producer never passes an r2owa the consumer has not captured (no loss), a consumer never captures one "
+              "offer twice (no duplicate), captured values equal the sent ones in order. In strict mode the check reproduces the two "
+              "recorded defects (replayed natively with real goroutines); with exactly those two situations assumed away z3 shows the "
+              "property for all programs within the bounds. The generated hardware side of C04 is not covered by this check."),
+        note=("Trusted: z3, go/ssa, /verif/symgo including its goroutine model (run-until-block scheduler, non-blocking sends, two resume "
+              "orders); bounded horizon and program size; no delay distributions. Known findings: C04-double-i2rw, C04-back-to-back-r2owa."),
+        design="DESIGN.md section 3, C04 (simulator side); section 5",
+        technique="bounded symbolic model checking: go/ssa symbolic execution of the simulator for T ticks with symbolic programs, ghost-monitor assertions decided by z3, counterexamples replayed natively"),
     "C08": dict(
         category="proof",
         text=("(a) Decided on the regular languages themselves: the real matcher registry (AllMatchers after init plus one member of each "
